@@ -131,7 +131,21 @@ pub fn run(env: &mut Env) -> Outcome {
                         let sid = srv.current_share_id;
                         let other = build::share_data_raw(&srv.p, sid, 0x2f, &build::set_error_info_payload(0));
                         let dea = build::deactivate_all_raw(&srv.p, sid);
-                        if ctxrc.borrow_mut().chance("deactivate_last", 1, 2) { srv.send_coalesced("error-info+deactivate-all", &[other, dea]); } else { srv.send_coalesced("deactivate-all+error-info", &[dea, other]); }
+                        let packing = ctxrc.borrow_mut().choose("deactivate_packing", 3);
+                        match packing {
+                            0 => srv.send_coalesced("error-info+deactivate-all", &[other, dea]),
+                            1 => srv.send_coalesced("deactivate-all+error-info", &[dea, other]),
+                            _ => {
+                                // behind the deactivate-all a share-control PDU of a type the client does not implement (the
+                                // server redirection packet, PDUTYPE_SERVER_REDIR_PKT): whatever `read` returns for it,
+                                // the deactivate-all in front of it has closed the window
+                                let mut body = Wr::new();
+                                body.u16le("redir.pad", 0).u16le("redir.flags", 0x0400).u16le("redir.length", 12).u32le("redir.sessionId", 1).u32le("redir.redirFlags", 0);
+                                let redir = build::share_control(&srv.p, 0x1a, &body);
+                                srv.send_coalesced("deactivate-all+server-redirection", &[dea, redir]);
+                                ctxrc.borrow_mut().probe("deactivate_all_followed_by_unimplemented_pdu");
+                            }
+                        }
                         ctxrc.borrow_mut().probe("coalesced_deactivate_all");
                     } else if ctxrc.borrow_mut().chance("long_source_descriptor", 1, 8) {
                         // the source descriptor is a variable-length field
@@ -259,5 +273,76 @@ pub fn run(env: &mut Env) -> Outcome {
     ctx.key_add(len as u64);
     ctx.key_add(da_count as u64);
     ctx.nontrivial = true;
+    Outcome::Pass
+}
+
+
+/// `c12/confirm_active_limit`: the answer to a demand-active at the edge of what one MCS send-data request can carry.
+/// The confirm-active PDU contains the client name; 16383 octets of user data is the most a send-data request announces
+/// with the two-octet PER length (rdp-rs refuses more, repair P20). Two connections with names of 1000 and 1001
+/// characters measure the size of the PDU and what a character adds to it; a third connection uses the name that puts
+/// the PDU at 16383 - 2 .. 16383 + 2 octets: up to 16383 the demand-active must be answered (one confirm-active plus
+/// finalization of exactly the predicted size), above it a refusal is accepted.
+pub fn run_limit(env: &mut Env) -> Outcome {
+    use crate::refsrv::build::ServerParams;
+    use crate::refsrv::strict::{largest_send_data_request, reset_largest_send_data_request};
+    use crate::refsrv::world::World;
+    use crate::scen::session::{gen_benign_net, ClientCfg, Session};
+    let ctxrc = env.ctx.clone();
+    let (params, delta) = {
+        let mut ctx = ctxrc.borrow_mut();
+        let params = if ctx.chance("limit_params", 1, 2) { ServerParams::generate(&mut ctx, 1) } else { ServerParams::default_for(1) };
+        let delta = ctx.choose("limit_delta", 5) as i64 - 2;
+        ctx.step_budget = 3_000_000;
+        ctx.key_add((delta + 2) as u64);
+        (params, delta)
+    };
+    let mut measure = |name_len: usize| -> Result<(Result<(), String>, usize, Vec<String>), Outcome> {
+        let net = { let mut ctx = ctxrc.borrow_mut(); gen_benign_net(&mut ctx) };
+        let world = World::new(ctxrc.clone(), params.clone(), net);
+        let mut cfg = ClientCfg::plain();
+        cfg.name = "n".repeat(name_len);
+        reset_largest_send_data_request();
+        let mut s = Session::connect(world, &cfg)?;
+        let res = match &s.connect_result {
+            Err(k) => Err(format!("connect: {}", k)),
+            Ok(_) => match s.activate(40)? { Ok(()) => Ok(()), Err(k) => Err(format!("activation: {}", k)) },
+        };
+        let names: Vec<String> = s.world.server.borrow().history.iter().map(|(_, _, m)| m.name()).collect();
+        if s.client.is_some() { let _ = s.shutdown(); }
+        Ok((res, largest_send_data_request(), names))
+    };
+    let (r0, m0, _) = match measure(1000) { Ok(x) => x, Err(o) => return o };
+    let (r1, m1, _) = match measure(1001) { Ok(x) => x, Err(o) => return o };
+    if r0.is_err() || r1.is_err() || m1 <= m0 || m0 < 1000 {
+        // the measurement itself did not work (a client that does not put its name into the confirm-active, for instance):
+        // nothing to say here, connecting is C03's business
+        return Outcome::Pass;
+    }
+    let slope = m1 - m0;
+    // name length that puts the PDU at 0x3fff + delta (rounded down to what the slope allows)
+    let target = 0x3fff as i64 + delta;
+    let n = 1000 + ((target - m0 as i64) / slope as i64) as usize;
+    let predicted = m0 + slope * (n - 1000);
+    let (r, m, names) = match measure(n) { Ok(x) => x, Err(o) => return o };
+    {
+        let mut ctx = ctxrc.borrow_mut();
+        ctx.nontrivial = true;
+        ctx.ev("drv", format!("name of {} characters: confirm-active predicted at {} octets of user data, result {:?}, largest send-data request seen {}", n, predicted, r, m));
+        if predicted == 0x3fff { ctx.probe("confirm_active_of_exactly_16383_octets"); }
+        if predicted > 0x3fff { ctx.probe("confirm_active_above_16383_octets"); }
+    }
+    if predicted <= 0x3fff {
+        let finalization = ["confirm-active", "synchronize", "control(4)", "control(1)", "font-list"];
+        let answered = names.windows(5).any(|w| w.iter().map(|e| e.as_str()).eq(finalization.iter().cloned()));
+        if r.is_err() || !answered {
+            return viol("c12/demand-active-unanswered", "confirm-active that fits one send-data request", format!("client name of {} characters: the confirm-active PDU takes {} octets of user data (16383 fit a send-data request), the demand-active was not answered: {:?}; client messages: {}", n, predicted, r, names.join(", ")));
+        }
+        if m != predicted {
+            return viol("c12/confirm-active-size", "differs from the measured layout", format!("client name of {} characters: largest send-data request {} octets, predicted {}", n, m, predicted));
+        }
+    } else if r.is_ok() && m > 0x3fff {
+        return viol("c12/emission", "send-data request above 16383 octets", format!("client name of {} characters: a send-data request of {} octets was framed", n, m));
+    }
     Outcome::Pass
 }
